@@ -21,7 +21,16 @@ side ExpandDecl = the manual's textual substitution carried out by hand), progra
     REPT/IRP/IRPN/IRPC/WHILE nested in the macro, formals / ARGCOUNT / ALLARGS inside and after it); EXITM inside IF in REPT/IRP/WHILE/MACRO/MACRO+REPT; labels private vs GLOBALSYMBOLS; the private
     symbol space across a nested construct (family `scope`: outer REPT/IRP/IRPN/IRPC/WHILE/MACRO expanded twice,
     label defined before, used inside and after, another label defined after an inner REPT/IRP/IRPN/IRPC/WHILE/
-    macro call/empty macro/INCLUDE with 0..3 iterations, same-named global label present); nested
+    macro call/empty macro/INCLUDE with 0..3 iterations, same-named global label present); the DEPTH of a reference
+    to a private label (family `refdepth`: chains of three constructs, every kind MACRO (called) / REPT / IRP / IRPN /
+    IRPC / WHILE at every level; the label defined at the levels D (one or several: shadowing), USED AT EVERY LEVEL from
+    which a definition or the same-named global label is visible - i.e. from the defining body itself, one and two
+    expansions further in, and outside; definition before (backward) or after (forward) the nested construct; a
+    same-named global label in front / behind / absent; GLOBALSYMBOLS on any subset of the levels (their labels land
+    in the enclosing expansion or the global table); the name written in the body or handed down as macro argument /
+    IRP / IRPN operand; quick: all 216 chains of kinds for D = {1} + 36 chains (every pair of kinds at every pair of
+    levels) x D in {2}, {1,2}, {1,3} without and x 4 D with GLOBALSYMBOLS masks, the other dimensions cycling = 405
+    programs; thorough: 216 chains x 7 D x 3 choices); nested
     INCLUDE depth 1..3 from REPT and from a macro; BINCLUDE windows over files of 0..600 bytes; INTLABEL, ALLARGS
     to IRP, macro defining a macro, ATTRIBUTE on 68000; the nesting family; family `binctx`: the TARGET as a
     dimension - BINCLUDE at top level / in a MACRO / REPT / IRP / WHILE / REPT inside a macro / an INCLUDEd file /
@@ -48,7 +57,12 @@ Verdict-bearing: code-file equality of P and E for programs the manual gives a d
 asl behaves exactly as the as-coded model predicts (assembles like the model's delivered list / is rejected where
 the model leaves raw parameter tokens / dies with SIGSEGV where the model dereferences NULL).
 
-NOT covered: READ, FUNCTION, STRUCT expansion, section-local macros (PUBLIC/GLOBAL), EXPORT/-M output, listing
+NOT judged (the specification marks them indef, MacroProg.PassDependent): a FORWARD use of a private label while a
+symbol of the same name further out (enclosing expansion or global) is already defined - the manual (section FORWARD)
+describes that the first pass takes the outer symbol and that a second pass need not happen; observed: `dw la` in front
+of `la:` in a macro body with a global `la` defined earlier assembles with the GLOBAL value, no message, one pass.
+NOT covered: READ, FUNCTION, STRUCT expansion, section-local macros (PUBLIC/GLOBAL: covered by the extension "macscope"
+below, not by the families above), EXPORT/-M output, listing
 control (C19), NESTMAX exhaustion, case-sensitive mode (-U), quoting of commas in arguments, macro use before
 definition (pass-dependent by the manual), ARGCOUNT with fewer arguments than formals and formals left without an
 argument by SHIFT (manual contradictory / silent: marked indef, not judged); BINCLUDE on targets whose address unit
@@ -59,6 +73,24 @@ follow: #define (text rewritten after the hook), macro-processor arguments conta
 {symbol} expansion (t_403, t_821) - 13 of 201, listed in the evidence.
 
 Mutations of /repo tried (scratch copies): see the end of this file (MUTATIONS).
+
+Extension "macscope" (checks/ext_macscope.py, last phase of main(); spec modules MacroScope, MacroScope_MC, BinWindow,
+BinWindow_MC; details, bounds, findings and mutations in the docstring of checks/ext_macscope.py):
+(A) the macro NAME TABLE - which definition a call finds: macros local to SECTIONs (nested, same name inside and outside),
+    {PUBLIC[:PARENT]} / {GLOBAL[:PARENT]} (the additional macro S1_name), redefinition (error 1815), a macro named like a
+    machine instruction / pseudo instruction / macro-processor statement, the '!' prefix, a macro defined in a macro body
+    (section of the call), call before definition with one pass and with a forward reference (later passes know all
+    definitions of pass 1), IFDEF of a macro name (observed only).  TLC: every program of <= 4 statements (thorough 5)
+    over two names, <= 2 sections nested <= 2: lookup as coded (tree keyed by name + section handle, section stack walk,
+    Defined flags, pass loop) = declarative rule (innermost known definition of the definition / section history); the
+    same run prints the programs with the promised outcome, the harness assembles them (quick 3.5 k programs, 4 k
+    assemblies) and compares bytes / rejection / error numbers 1200, 1815.
+(B) BINCLUDE windows - file[,offset[,length]] over the whole argument space (omitted, 0, n-1, n, n+1, beyond the end,
+    negative; files of 0..1030 bytes = up to 5 read chunks; statement at address 0 or 1; label before, `$` after; byte
+    target Z80 with verdict, word-granular TMS32010 observed): 860 cases x 2 targets, expected code image computed by TLC.
+Findings (known_findings/C11-macscope.json): the {GLOBAL} copy of a macro is uncallable (uninitialised UseCounter) and
+replaces silently / frees a running macro (proposed_fixes/C11-global-macro-copy.diff); an empty BINCLUDE at address 0 is
+"address overflow" (proposed_fixes/C11-binclude-empty-window-at-zero.diff).
 """
 import os
 
@@ -89,9 +121,9 @@ def repaired_in_repo():
             pass
     return "{" + ", ".join('"%s"' % d for d in sorted(out)) + "}"
 
-QUICK_FAMILIES = ["exit", "label", "scope", "incl", "bin", "count", "rec", "shift", "shifthole", "shiftloop", "adj", "bind", "special", "attr", "nest2q", "binctx"]
+QUICK_FAMILIES = ["exit", "label", "scope", "incl", "bin", "count", "rec", "shift", "shifthole", "shiftloop", "adj", "bind", "special", "attr", "nest2q", "binctx", "refdepth"]
 THOROUGH_FAMILIES = ["exit", "label", "scope", "incl", "bin", "count", "rec", "shift", "shifthole", "shiftloop", "adj", "bind", "special", "attr",
-                     "nest2", "nest3", "binctx"]
+                     "nest2", "nest3", "binctx", "refdepth"]
 
 
 def _cfg(name, text):
@@ -255,7 +287,8 @@ def main(tier):
         tasks.append(("mc_fixed_labels", "MacroProc_MC", _cfg("_c11_mc_fixed2.cfg", mc_cfg(tier, True, 1))))
     for f in fams:
         tasks.append(("gen_" + f, "MacroProc_Gen", _cfg("_c11_gen_%s.cfg" % f, gen_cfg(f, tier))))
-    big = {"nest2", "nest3", "nest2q", "bind", "mc_fixed", "mc_coded", "mc_fixed_labels"}
+    big = {"nest2", "nest3", "nest2q", "bind", "refdepth", "mc_fixed", "mc_coded", "mc_fixed_labels"}
+    tasks.sort(key=lambda t: t[0] != "gen_refdepth")      # a long one: started first (the order of `outs` stays that of fams)
 
     def run(t):
         name, mod, cfg = t
@@ -335,6 +368,8 @@ def main(tier):
     # ---- (V2) the golden tests: every line handed out by a MACRO/IRP/IRPN/IRPC/REPT/WHILE tag -------------------
     if bld.hooks:
         corpus_trace(rep, bld, tier)
+    from checks import ext_macscope         # phase "macscope": the macro name table (sections, '!', passes) + BINCLUDE windows
+    ext_macscope.run(rep, bld, tier)
     return rep.finish(
         rule="programs = all members of the TLC-enumerated families (see docstring); each definite program is "
              "rendered twice (P, and E = ExpandDecl(P) computed by TLC) and both are assembled by asl; distinct = "
@@ -400,6 +435,9 @@ def corpus_trace(rep, bld, tier):
 def replay(path):
     import json
     v = json.load(open(os.path.join(path, "violation.json")))
+    if (v.get("case") or {}).get("phase") in ("macscope", "binwindow"):
+        from checks import ext_macscope
+        return ext_macscope.replay(path, v)
     bld = build.get("hook")
     srcP = {}
     for fn in os.listdir(path):
@@ -463,6 +501,13 @@ program is to be assembled); on a copy of the current /repo:
       programs - 68000, sh7000, tms9900 on DC.W / DC.L / instructions, z8001, am29000, ppc403 on instructions
       (their Intel style data statements set ActListGran = 1 and are never swapped); none on the targets with
       TurnWords = False or ListGran = 1, as the code predicts)                                  (ctest 201/201)
+Sixth round (seed missed: FindLocNode's walk through the stack of enclosing symbol spaces searched the DIRECTLY
+enclosing space at every step, so a label private to an expansion two or more levels further out was invisible: silently
+the same-named global symbol, or "symbol undefined").  Every generated program used a label at its own level or one
+level further in: the distance between use and definition was not a dimension.  Family `refdepth` added (+ the
+pass-dependent zone named, see NOT judged); on a copy of the current /repo:
+  FindLocNode: FindLocNode_FNode(Name, SearchType, FirstLocHandle->Cont) (the seed) -> VIOLATION (refdepth: 216 of 405
+      quick programs = all with D = {1} and no GLOBALSYMBOLS level)                              (ctest 201/201)
 Corrupted traces (MacroProc_CorpusTrace on t_irpn): one token of a delivered body line changed, one delivered line
 dropped, exhausted flag flipped, depth changed -> each REJECTED at the corrupted event.
 All six proposed fixes applied together: 0 violations, no known finding hit, 201/201 golden tests.
